@@ -185,6 +185,11 @@ class P:
             ({"S": "echo \\ ", "T": "echo \\\t", "U": "echo \\\\ ", "N": "nice \\  ", "L": "ls -l", "B": "echo a\\"},
              [("S tail", "echo \\  tail"), ("T x", "echo \\\t x"), ("U L", "echo \\\\ ls -l"), ("N L", "nice \\  ls -l"), ("S L", "echo \\  L"),
               ("S", "echo \\ "), ("{ S; }", "{ echo \\ ; }"), ("B c", "echo a\\ c")]),
+            # the word after a blank-terminated value that ends in for / case is examined too (the loop variable, the word of case)
+            ({"f": "for ", "x": "i", "g": "f ", "c": "case ", "w": "v", "L": "a b", "h": "echo hi; for\t"},
+             [("f x in a b; do echo $i; done", "for i in a b; do echo $i; done"), ("g x in a; do :; done", "for i in a; do :; done"),
+              ("f x; do :; done", "for i; do :; done"), ("{ f x in L; do :; done; }", "{ for i in L; do :; done; }"), ("h x in 1; do :; done", "echo hi; for\ti in 1; do :; done"),
+              ("c w in v) :;; esac", "case v in v) :;; esac"), ("f y in a; do :; done", "for y in a; do :; done")]),
             ({"W": "while ", "T": "true", "I": "if ", "TH": "then ", "E": "echo hi"},
              [("W T; do T; done", "while true; do true; done"), ("I T; TH E; fi", "if true; then echo hi; fi"), ("I T; then E; fi", "if true; then echo hi; fi")]),
         ):
